@@ -168,8 +168,11 @@ def c_region(r):
 
 
 def c_state(st):
-    subs = "[" + "; ".join(f"({c_str(s['name'])}, {c_region(s)})" for s in st["subs"]) + "]"
-    subk = "[" + "; ".join(c_ck(s["ck"]) for s in st["subs"]) + "]"
+    # subregions are a name -> box map: emitted sorted by name (state, file view and read-back alike), so a
+    # consistent change of the dict order is not a disagreement while a wrong name <-> box pairing is
+    ss = sorted(st["subs"], key=lambda q: q["name"])
+    subs = "[" + "; ".join(f"({c_str(q['name'])}, {c_region(q)})" for q in ss) + "]"
+    subk = "[" + "; ".join(c_ck(q["ck"]) for q in ss) + "]"
     mesh = f"(mkMesh {c_region(st)} {g.zl(st['n'])} {c_str(st['bc'])} {subs})"
     vd = g.opt(st["vdims"], c_strs)
     un = g.opt(st["unit"], c_str)
@@ -185,7 +188,11 @@ def c_view(v):
         subs = "None"
     else:
         s = v["subs"]
-        subs = f"(Some ({c_strs(s['names'])}, ({c_ck(s['tk'])}, {g.qll(s['rows'])})))"
+        names, rows = s["names"], s["rows"]
+        if len(names) == len(rows) and len(set(names)) == len(names):
+            pairs = sorted(zip(names, rows), key=lambda q: q[0])
+            names, rows = [q[0] for q in pairs], [q[1] for q in pairs]
+        subs = f"(Some ({c_strs(names)}, ({c_ck(s['tk'])}, {g.qll(rows)})))"
     vd = f"(AStr {c_str(v['vdims'])})" if isinstance(v["vdims"], str) else f"(AStrs {c_strs(v['vdims'])})"
     return (f"(mkH5 {c_str(v['type'])} {c_str(v['version'])} {reg} {g.zl(v['n'])} {c_str(v['bc'])} {subs} "
             f"{g.z(v['nvdim'])} {vd} {c_str(v['unit'])} {c_dk(v['dk'])} {g.zl(v['shape'])} {c_vals(v['vals'])} "
@@ -343,10 +350,11 @@ def file_of_state(st):
 
 
 # ------------------------------------------------------------------ recipes
-DIM1 = list("xyzabcuvwtrs")
-DIMN = ["x0", "x1", "len", "ρ", "φ", "θ", "my dim", "X", "Y", "k_x", "k_y", "k_z"]
+DIM1 = list("xyzabcuvwtrsn")
+DIMN = ["x0", "x1", "len", "ρ", "φ", "θ", "my dim", "X", "Y", "V", "N", "k_x", "k_y", "k_z", "xx", "xy"]
 UNITS = ["m", "nm", "µm", "s", "", "rad", "1/m", "Å", "m", "m"]
-VDIMS = ["a", "b", "c", "d", "e", "mx", "my", "mz", "c0", "c1", "ψ", "re_part", "v 1", "x", "y", "z", "None", ""]
+VDIMS = ["a", "b", "c", "d", "e", "mx", "my", "mz", "c0", "c1", "ψ", "re_part", "v 1", "x", "y", "z", "None", "",
+         "m", "mxx", "a1", "a12", "V", "r"]
 FUNITS = [None, None, None, "A/m", "T", "", "J/m³", "µT", "none", "NONE", " None", "None ", "A/m", "None", "T", "A/m"]
 SNAMES = ["sr1", "sr2", "bottom", "top", "default", "ü", "a b", "r0", "r1", "r2", "None", "x"]
 DTYPES = ["float64"] * 8 + ["float32", "float16", "complex128", "complex128", "complex64", "int64", "int32", "int8",
@@ -381,8 +389,14 @@ def gen_round(rng, tier, force=None):
             cell.append(c)
             lo.append(F(rng.randint(-10 ** 12, 10 ** 12) if big else rng.randint(-20, 20)))
     else:
-        regime = rng.choice(["dyadic", "dyadic", "scale"])
-        if regime == "dyadic":
+        regime = rng.choice(["dyadic", "dyadic", "scale", "extreme"])
+        if regime == "extreme":        # tiny / huge magnitudes: any absolute tolerance or narrow dtype shows
+            regime = "dyadic"
+            sc = F(2) ** rng.choice([-200, -120, -60, 60, 120, 300])
+            for k in n:
+                cell.append(F(rng.choice([1, 3, 5, 7]), 2 ** rng.randint(0, 4)) * sc)
+                lo.append(F(rng.randint(-256, 256), 8) * sc)
+        elif regime == "dyadic":
             for k in n:
                 cell.append(F(rng.choice([1, 3, 5, 7]), 2 ** rng.randint(0, 4)))
                 lo.append(F(rng.randint(-256, 256), 8))
@@ -527,17 +541,32 @@ def build(rc):
         kw["units"] = rc["units"]
     if rc["tf"] is not None:
         kw["tolerance_factor"] = int(rc["tf"][4:]) if rc["tf"].startswith("int:") else float(F(rc["tf"]))
+    ra = random.Random(rc["vseed"] + 3)                  # representation of the arguments
+
+    def seq(xs):
+        style = ra.choice(["list", "tuple", "array"])
+        return list(xs) if style == "list" else (tuple(xs) if style == "tuple" else np.array(xs))
     if nd == 1 and rc["vseed"] % 2:
         region = df.Region(p1=p1[0], p2=p2[0], **kw)      # scalar corners of a 1-d region
     else:
-        region = df.Region(p1=p1, p2=p2, **kw)
+        region = df.Region(p1=seq(p1), p2=seq(p2), **kw)
     subs = {}
     for s in rc["subs"]:
         q1, q2 = corners(s["i0"], s["i1"], s["ck"], s["flip"])
         subs[s["name"]] = df.Region(p1=q1, p2=q2)
-    mesh = df.Mesh(region=region, n=n, bc=rc["bc"], subregions=subs)
-    nv = rc["nvdim"]
-    arr = make_values(rc, (*n, nv))
+    itypes = [int, np.int64, np.int32, np.uint8, np.uint16, np.int8]
+    nstyle = ra.choice(["list", "tuple", "array", "npscalars", "npscalars"])
+    if nstyle == "array":
+        n_arg = np.array(n, dtype=ra.choice([np.int64, np.int32, np.uint8, np.uint16]))
+    elif nstyle == "npscalars":
+        n_arg = [ra.choice(itypes)(k) for k in n]
+    else:
+        n_arg = list(n) if nstyle == "list" else tuple(n)
+    if nd == 1 and ra.random() < 0.3:
+        n_arg = ra.choice(itypes)(n[0])                    # scalar n of a 1-d mesh
+    mesh = df.Mesh(region=region, n=n_arg, bc=rc["bc"], subregions=subs)
+    nv = ra.choice(itypes)(rc["nvdim"])                   # nvdim as Python int or numpy scalar of several widths
+    arr = make_values(rc, (*n, rc["nvdim"]))
     if rc["valid"] == "all":
         valid = True
     elif rc["valid"] == "none":
@@ -554,8 +583,143 @@ def build(rc):
         return df.Field(mesh, nvdim=nv, value=arr, dtype=arr.dtype, unit=rc["unit"], valid=valid, **kw)
 
 
+def use(f):
+    """touch everything derived from the mesh / field before it is changed in place (stale caches)"""
+    m = f.mesh
+    with np.errstate(all="ignore"):
+        _ = (m.cell, m.dV, len(m), m.region.edges, m.region.center, m.region.volume)
+        first = m.index2point(tuple(0 for _ in m.n))
+        _ = m.point2index(first)
+        _ = [p for p, _k in zip(m, range(4))]
+        _ = [i for i, _k in zip(m.indices, range(4))]
+        for name in m.subregions:
+            _ = m[name].n
+        if f.array.dtype.kind in "fc" and f.array.dtype.itemsize <= 16:
+            attempt(lambda: f.norm.array)
+            attempt(lambda: f.mean())
+        _ = (f == f)
+        path = os.path.join(TMP, "used.h5")
+        f.to_file(path)                                  # the operation under test itself
+        df.Field.from_file(path)
+
+
+def apply_op(f, op):
+    m = f.mesh
+    kind = op["op"]
+    nd = m.region.ndim
+    if kind == "translate":
+        v = [float(F(x)) for x in op["v"]]
+        if op.get("int") and m.region.pmin.dtype.kind == "i":
+            v = [int(x) for x in v]
+        (m.region if op["via"] == "region" else m).translate(v if nd > 1 else v[0], inplace=True)
+    elif kind == "scale":
+        fac = [float(F(x)) for x in op["f"]]
+        fac = fac[0] if len(fac) == 1 else fac
+        (m.region if op["via"] == "region" else m).scale(fac, inplace=True)
+    elif kind == "rot":
+        a1, a2 = m.region.dims[op["ax"][0]], m.region.dims[op["ax"][1]]
+        if op["via"] == "field":
+            f.rotate90(a1, a2, k=op["k"], inplace=True)
+        else:
+            m.rotate90(a1, a2, k=op["k"], inplace=True)
+    elif kind == "array":
+        r = random.Random(op["seed"])
+        flat = f.array.reshape(-1)                       # a view: writes go into field.array itself
+        assert np.shares_memory(flat, f.array)
+        for _ in range(max(1, flat.size // 3)):
+            j = r.randrange(flat.size)
+            flat[j] = flat[r.randrange(flat.size)] if r.random() < 0.5 else (flat[j] + flat[j])
+        idx = tuple(r.randrange(k) for k in f.array.shape[:-1])
+        f.array[idx] = f.array[tuple(r.randrange(k) for k in f.array.shape[:-1])]
+    elif kind == "valid":
+        r = random.Random(op["seed"])
+        if op.get("setter"):
+            f.valid = np.array([r.random() < 0.5 for _ in range(f.valid.size)]).reshape(f.valid.shape)
+        else:
+            flat = f.valid.reshape(-1)
+            assert np.shares_memory(flat, f.valid)
+            for _ in range(max(1, flat.size // 2)):
+                j = r.randrange(flat.size)
+                flat[j] = not flat[j]
+    elif kind == "unit":
+        f.unit = op["u"]
+    elif kind == "vdims":
+        f.vdims = op["v"]
+    elif kind == "bc":
+        m.bc = op["bc"]
+    elif kind == "drop-subs":
+        m.subregions = {}
+    elif kind == "reverse-subs":
+        m.subregions = dict(reversed(list(m.subregions.items())))
+    else:
+        raise ValueError(kind)
+
+
+def prepare(rc):
+    """the field that is written: built, optionally used and then changed in place through public calls,
+    optionally replaced by its own read-back (a re-used read-back object)"""
+    f = build(rc)
+    if rc.get("ops"):
+        use(f)
+        for op in rc["ops"]:
+            apply_op(f, op)
+    if rc.get("generation") == 2:
+        path = os.path.join(TMP, "gen1.hdf5")
+        f.to_file(path)
+        with np.errstate(all="ignore"):
+            f = df.Field.from_file(path)
+        os.remove(path)
+    return f
+
+
+def gen_ops(rng, rc):
+    nd, n = rc["nd"], rc["n"]
+    ops = []
+    exact_only = rc["tf"] is not None and rc["tf"] not in (S(1e-9), S(1e-6), "1/1000", "1/1000000000")
+    geometric = rc["regime"] == "dyadic" and rc["ck"] == "f" and max(abs(F(x)) for x in rc["lo"]) < 2 ** 20 \
+        and min(F(x) for x in rc["cell"]) > F(1, 2 ** 20)
+    for _ in range(rng.randint(1, 3)):
+        kind = rng.choice(["translate", "scale", "rot", "array", "array", "valid", "valid", "unit", "vdims", "bc",
+                           "drop-subs", "reverse-subs"])
+        via = "region" if (not rc["subs"] and rng.random() < 0.4) else "mesh"
+        if kind == "translate":
+            if rc["ck"] == "i":
+                ops.append(dict(op="translate", v=[S(rng.randint(-9, 9)) for _ in range(nd)], via=via, int=True))
+            elif geometric:
+                ops.append(dict(op="translate", v=[S(F(rng.randint(-64, 64), 8)) for _ in range(nd)], via=via))
+        elif kind == "scale" and geometric:
+            pool = ["2/1", "1/2", "4/1", "-1/1", "-2/1", "1/4"]
+            fac = [rng.choice(pool)] if rng.random() < 0.5 else [rng.choice(pool) for _ in range(nd)]
+            ops.append(dict(op="scale", f=fac, via=via))
+        elif kind == "rot" and nd >= 2 and geometric and not exact_only:
+            a1, a2 = rng.sample(range(nd), 2)
+            k = rng.choice([1, 2, 3, 1, 3])
+            field_ok = rc["nvdim"] == 1 or rc["nvdim"] == nd
+            mesh_ok = k % 2 == 0 or n[a1] == n[a2]
+            if field_ok and (rng.random() < 0.7 or not mesh_ok):
+                ops.append(dict(op="rot", ax=[a1, a2], k=k, via="field"))
+                n = list(n)
+                if k % 2:
+                    n[a1], n[a2] = n[a2], n[a1]
+            elif mesh_ok:
+                ops.append(dict(op="rot", ax=[a1, a2], k=k, via="mesh"))
+        elif kind == "array":
+            ops.append(dict(op="array", seed=rng.randrange(2 ** 31)))
+        elif kind == "valid":
+            ops.append(dict(op="valid", seed=rng.randrange(2 ** 31), setter=rng.random() < 0.4))
+        elif kind == "unit":
+            ops.append(dict(op="unit", u=rng.choice([None, "kA/m", "", "T"])))
+        elif kind == "vdims" and rc["nvdim"] >= 1:
+            ops.append(dict(op="vdims", v=[f"q{i}" for i in range(rc["nvdim"])]))
+        elif kind == "bc":
+            ops.append(dict(op="bc", bc=rng.choice(["", "neumann", "dirichlet"])))
+        elif kind in ("drop-subs", "reverse-subs") and rc["subs"]:
+            ops.append(dict(op=kind))
+    return ops
+
+
 def buildable(rc):
-    st, f = attempt(lambda: build(rc))
+    st, f = attempt(lambda: prepare(rc))
     if st != "ok":
         return False
     try:
@@ -587,6 +751,13 @@ def generate(rng, tier):
             rc["limit"].append("labels-absent-on-vector")
         if np.dtype(rc["dtype"]).kind in "iu" and np.dtype(rc["dtype"]).itemsize == 8 and rng.random() < 0.3:
             rc["limit"].append("int-beyond-2**53")
+        # flows: used-then-changed in place, re-used read-back object, file written twice, twin field
+        if rng.random() < 0.35:
+            rc["ops"] = gen_ops(rng, rc)
+        if rng.random() < 0.15:
+            rc["generation"] = 2
+        rc["prewrite"] = rng.random() < 0.2
+        rc["twin"] = rng.random() < 0.3
         if buildable(rc):
             cases.append(rc)
             want -= 1
@@ -673,13 +844,14 @@ def oracle_round(rc, s0, s1, f, g_, s0_after):
                         ("bc", "bc"), ("nvdim", "nvdim")]:
         if s0[key] != s1[key]:
             bad.append(clause)
-    if [s["name"] for s in s0["subs"]] != [s["name"] for s in s1["subs"]]:
+    b0, b1 = boxes(s0), boxes(s1)
+    if sorted(b0) != sorted(b1) or len(s0["subs"]) != len(s1["subs"]):
         bad.append("subregion-names")
     else:
-        for a, b in zip(s0["subs"], s1["subs"]):
-            if a["pmin"] != b["pmin"] or a["pmax"] != b["pmax"]:
+        for name in b0:
+            if b0[name][:2] != b1[name][:2]:
                 bad.append("subregion-corners")
-            if (a["dims"], a["units"], a["tf"]) != (b["dims"], b["units"], b["tf"]):
+            if b0[name][2:] != b1[name][2:]:
                 bad.append("subregion-attributes")
     if s0["vdims"] != s1["vdims"]:
         bad.append("component-labels")
@@ -722,13 +894,69 @@ def size_of(st):
     return len(st["n"]) + math.prod(st["n"]) * st["nvdim"] + 3 * len(st["subs"])
 
 
+def big_field():
+    """a field much larger than any generated one (written first into a file that is then written again)"""
+    mesh = df.Mesh(p1=(0, 0, 0), p2=(8, 8, 8), n=(8, 8, 8), bc="xyz",
+                   subregions={f"big{i}": df.Region(p1=(i, 0, 0), p2=(i + 2, 8, 8)) for i in range(5)})
+    return df.Field(mesh, nvdim=4, value=(1, 2, 3, 4), vdims=["p", "q", "r", "s"], unit="BIG",
+                    valid=np.arange(512).reshape(8, 8, 8) % 2 == 0)
+
+
+def boxes(st):
+    return {q["name"]: (q["pmin"], q["pmax"], q["dims"], q["units"], q["tf"]) for q in st["subs"]}
+
+
+def states_match(a, b, exact):
+    """attribute-by-attribute comparison of two states; exact = also representation tags (second generation)"""
+    keys = ["pmin", "pmax", "ck", "dims", "units", "tf", "n", "bc", "nvdim", "vdims", "unit", "shape", "vals",
+            "valid", "vshape", "valid_dtype"]
+    if exact:
+        keys += ["dtype", "dk"]
+    bad = [k for k in keys if a[k] != b[k]]
+    if boxes(a) != boxes(b):
+        bad.append("subs")
+    if exact and [(q["name"], q["ck"]) for q in a["subs"]] != [(q["name"], q["ck"]) for q in b["subs"]]:
+        bad.append("subs-order-or-kind")
+    return bad
+
+
+def tolerance_probes(f, g_):
+    """`point in region` on the written and on the read-back region for points around the faces at distances
+    spanning every order of magnitude: a changed tolerance (or corner) changes at least one answer"""
+    r0, r1 = f.mesh.region, g_.mesh.region
+    lo, hi = np.asarray(r0.pmin, dtype=float), np.asarray(r0.pmax, dtype=float)
+    emin = float(np.min(hi - lo))
+    c = (lo + hi) / 2
+    diff = 0
+    with np.errstate(all="ignore"):
+        for a in range(len(lo)):
+            scale = max(abs(hi[a]), abs(lo[a]), emin)
+            for k in range(0, 17):
+                for base, sign in ((hi[a], 1.0), (lo[a], -1.0)):
+                    for d in (emin * 10.0 ** -k, scale * 10.0 ** -k):
+                        p = c.copy()
+                        p[a] = base + sign * d
+                        pt = tuple(p) if len(p) > 1 else float(p[0])
+                        x, y = attempt(lambda: bool(pt in r0)), attempt(lambda: bool(pt in r1))
+                        diff += x != y
+        for (n0, s0_), (n1, s1_) in zip(sorted(f.mesh.subregions.items()), sorted(g_.mesh.subregions.items())):
+            slo, shi = np.asarray(s0_.pmin, dtype=float), np.asarray(s0_.pmax, dtype=float)
+            for k in (3, 6, 9, 11, 12, 13, 15):
+                p = shi + (shi - slo).min() * 10.0 ** -k
+                pt = tuple(p) if len(p) > 1 else float(p[0])
+                diff += attempt(lambda: bool(pt in s0_)) != attempt(lambda: bool(pt in s1_))
+    return diff
+
+
 def run_round(rc):
     rec = dict(kind="round", case=rc, oracle=[], tags=[], coq="")
-    f = build(rc)
+    f = prepare(rc)
     s0 = state_of(f)
     path = tmpname(".h5" if rc["vseed"] % 3 else ".hdf5")
     if os.path.exists(path):
         os.remove(path)
+    if rc.get("prewrite"):
+        big_field().to_file(path)          # the same filename is written twice, the second time smaller
     stw, err = attempt(lambda: f.to_file(path))
     s0_after = state_of(f)
     brief = {k: s0[k] for k in ("ck", "pmin", "pmax", "dims", "units", "tf", "n", "bc", "nvdim", "vdims", "unit",
@@ -739,31 +967,74 @@ def run_round(rc):
                    size=size_of(s0))
         return rec
     view = view_file(path)
+    extra = []
+    # a second field of the same shape (other values, other mask) written and read in between: no cross-talk
+    if rc.get("twin"):
+        rc2 = dict(rc, vseed=rc["vseed"] + 101, ops=None, generation=1)
+        st2, f2 = attempt(lambda: build(rc2))
+        if st2 == "ok":
+            p2 = os.path.join(TMP, "twin.h5")
+            sf2 = state_of(f2)
+            stt, back2 = attempt(lambda: (f2.to_file(p2), read_back(p2))[1])
+            if stt != "ok" or back2[0] != "ok" or states_match(sf2, back2[1][1], exact=False):
+                extra.append("twin-field-not-preserved")
     stb, back = read_back(path)
     kinds = "".join([s0["ck"], "-"] + [s["ck"] for s in s0["subs"]])
     frac_sub = any(F(x).denominator != 1 for s in s0["subs"] for x in s["pmin"] + s["pmax"])
+    flow = "/".join(x for x in ["ops:" + "+".join(sorted({o["op"] + ":" + o.get("via", "") for o in rc["ops"]}))
+                                if rc.get("ops") else "", "gen2" if rc.get("generation") == 2 else "",
+                                "prewrite" if rc.get("prewrite") else "", "twin" if rc.get("twin") else ""] if x)
     key = (f"round/{len(s0['n'])}d/{kinds}/{'frac' if frac_sub else 'intg'}/{s0['dtype']}/nv{min(s0['nvdim'], 4)}/"
            f"{'lab' if rc['vdims'] else 'nolab'}/{'unit' if s0['unit'] is not None else 'nounit'}/"
-           f"{rc['valid']}/{rc['regime']}/{'+'.join(rc.get('limit') or [])}")
+           f"{rc['valid']}/{rc['regime']}/{'+'.join(rc.get('limit') or [])}/{flow}")
     if stb != "ok":
-        rec.update(obs=dict(state=brief, read_error=back), oracle=["read-failed"], key=key + "/read-failed",
-                   size=size_of(s0))
+        rec.update(obs=dict(state=brief, read_error=back, flow=flow), oracle=["read-failed"] + extra,
+                   key=key + "/read-failed", size=size_of(s0))
         rec["coq"] = f"CRound false {c_state(s0)} {g.opt(view, c_view)} None"
         return rec
     g_, s1 = back
     in_domain = s0["unit"] != "None"          # the one guard of C10_roundtrip beyond the constructor invariants
     rec["oracle"] = oracle_round(rc, s0, s1, f, g_, s0_after)
+    # reading leaves the file alone; reading twice gives the same, unshared, result
+    if view_file(path) != view:
+        extra.append("reading-changed-the-file")
+    st3, again = read_back(path)
+    if st3 != "ok" or states_match(s1, again[1], exact=True):
+        extra.append("second-read-differs")
+    elif np.shares_memory(again[0].array, g_.array) or np.shares_memory(again[0].valid, g_.valid):
+        extra.append("read-back-fields-share-memory")
+    # writing the same field twice gives the same file content
+    p3 = os.path.join(TMP, "again.h5")
+    if attempt(lambda: f.to_file(p3))[0] != "ok" or view_file(p3) != view:
+        extra.append("second-write-differs")
+    # the read-back object is re-used: written again and read, it must come back identical in every
+    # attribute, tags included (C10_second_generation on the implementation)
+    p4 = os.path.join(TMP, "gen2.hdf5")
+    st4, third = attempt(lambda: (g_.to_file(p4), read_back(p4))[1])
+    if st4 != "ok" or third[0] != "ok":
+        extra.append("second-generation-failed")
+    else:
+        d2 = states_match(s1, third[1][1], exact=True)
+        if state_of(g_) != s1:
+            extra.append("writing-changed-the-read-back-field")
+        if d2:
+            extra.append("second-generation-differs")
+            rec.setdefault("obs", {})
+    # the tolerance factor through behaviour, not only as an attribute
+    if tolerance_probes(f, g_):
+        extra.append("tolerance-dependent-containment-differs")
+    if s0["unit"] == "None":
+        rec["tags"] = [KNOWN_UNIT_MARKER]
+    rec["oracle"] = sorted(set(rec["oracle"] + extra))
     back_brief = {k: s1[k] for k in ("ck", "pmin", "pmax", "dims", "units", "tf", "n", "bc", "nvdim", "vdims", "unit",
                                      "dtype")}
     back_brief["subs"] = [(s["name"], s["ck"], s["pmin"], s["pmax"]) for s in s1["subs"]]
-    rec.update(obs=dict(state=brief, back=back_brief, file_seen=view is not None,
+    rec.update(obs=dict(state=brief, back=back_brief, file_seen=view is not None, flow=flow,
                         table_dtype=None if not view or not view["subs"] else view["subs"]["tk"]),
                key=key, size=size_of(s0),
                coq=f"CRound {g.b(in_domain)} {c_state(s0)} {g.opt(view, c_view)} (Some {c_state(s1)})")
     if rc.get("limit"):
         rec["obs"]["limit_probe"] = "+".join(rc["limit"])
-    if s0["unit"] == "None":
-        rec["tags"] = [KNOWN_UNIT_MARKER]
     return rec
 
 
